@@ -16,20 +16,35 @@ instantiations share their source location.
 
 A **raw site** is one of (kind, what is recorded as the normalised expression):
 
-  deref         `*e`            with `e` of pointer type, `e` not `this`
-  subscript     `e[i]`          with `e` of pointer type (a decayed array member is `arraySubscript`)
-  arraySubscript `a[i]`         with `a` an array (member or local) -- the index may come from the wire
-  arrow         `e->m`          with `e` a pointer that is not `this` and whose pointee is not a PDU class
+  deref          `*e`           with `e` of pointer type, `e` not `this`
+  subscript      `e[i]`         with `e` of pointer type (a decayed array member is `arraySubscript`)
+  arraySubscript `a[i]`         with `a` an array (member, local or static) -- the index may come from the wire
+  arrow          `e->m`         with `e` a pointer that is not `this` (data members; a member FUNCTION call is followed as a call)
   memcpy / memcmp / memset      a call of memcpy, memmove / memcmp / memset (also `std::` and `__builtin_` spellings)
-  stdCopy       a call of std::copy / copy_n / copy_backward with a raw pointer operand
-  externCall    any other call of a function, member function or constructor declared OUTSIDE namespace Tins (libc,
-                libstdc++: std::equal, std::find, strlen, vector::assign / insert / vector(first, last), string(ptr, n) …)
-                that is handed a raw pointer (pointer to a non-class, non-function type; string literals excepted)
-  castToStruct  a C-style / reinterpret / static cast whose result is a pointer to a class type and whose operand is a
-                pointer to something else (or an integer)
-  castPtr       the same with a non-class pointee (`(const uint16_t*)ptr`)
-  ptrArith      `p + n`, `p - n`, `p += n`, `p -= n`, `++p`, `p++`, `--p`, `p--` with `p` a raw pointer (pointer to a non-class
-                type) -- this is what follows `stream.pointer()`; differences and comparisons of pointers are no sites
+  stdCopy        a call of std::copy / copy_n / copy_backward with a raw pointer operand
+  externCall     any other call of a function, member function or constructor declared OUTSIDE namespace Tins (libc,
+                 libstdc++: std::equal, std::find, vector::assign / insert / vector(first, last), string(ptr, n), pcap …)
+                 that is handed a raw pointer (pointer to a non-class, non-function type; `char*` = C strings, string literals,
+                 null and default arguments excepted)
+  ptrPass        a call of a function / constructor of namespace Tins that is handed a raw pointer: the hand-over of (part of)
+                 the buffer to another parser, stream, option, address …  Three shapes the scan can establish syntactically get
+                 their own kind, because they are safe whoever the callee is:
+  forward          … the raw pointer is a parameter of the enclosing function and the next argument is the parameter that
+                   follows it, and the function never modifies either (every use is a plain load)
+  streamRest       … the arguments are `S.pointer(), S.size()` of one local `InputMemoryStream S`
+  optionData       … the arguments are `O.data_ptr(), O.data_size()` of one `PDUOption O`
+  castToStruct   a C-style / reinterpret / static cast whose result is a pointer to a class type and whose operand is a
+                 pointer to something else (or an integer)
+  castPtr        the same with a non-class pointee (`(const uint16_t*)ptr`)
+  ptrArith       `p + n`, `p - n`, `p += n`, `p -= n`, `++p`, `p++`, `--p`, `p--` with `p` any pointer -- this is what follows
+                 `stream.pointer()`; differences and comparisons of pointers are no sites
+  Casts and pointer arithmetic that are a sub-expression of another recorded site (`*(ptr + 1)`, `f(ptr, ptr + n)`) are not listed on
+  their own: the outer site's text contains them.  Pointees are resolved through the typedefs of namespace Tins (`data_type`,
+  `storage_type`, `const_iterator` …); an unknown name counts as a raw (non-class) pointee.
+
+Besides the sites the table lists, per function that holds a site, every **guard**: the source text of every `if` / `while` / `for` /
+`do` / `?:` condition (a macro such as TINS_UNLIKELY(...) as written at the call).  A disposition cites the guards it relies on;
+`guards_present` fails when a cited guard is no longer in the source.
 
 The **normalised expression** is the source text of the expression with white space collapsed -- not a line number, so
 moving code around changes nothing while editing the expression (or adding a second occurrence: the count is part of the key)
@@ -42,8 +57,11 @@ The **parse path** is every function reachable, by name and conservatively, from
   * every function named `from_option` / `from_extension_header` (the typed option and IPv6 extension header decoders)
     and `PDUOption::to`.
 Edges: a resolved call goes to the function it names; a call of a virtual member goes to every virtual member of that name;
-a construction goes to every constructor of the class; a name the AST leaves unresolved (dependent code in a template
-pattern) goes to every function of that unqualified name.  Destructors and `operator delete` are not followed.
+a construction goes to the constructor of that signature (to every constructor of the class when none matches; an implicit
+default / copy / move constructor has no code of its own); a name the AST leaves unresolved (dependent code in a template
+pattern) goes to every function of that unqualified name, unless some unit instantiates the template (the instantiation's
+calls are resolved).  Destructors and `operator delete` are not followed.  For every function with a site the result also
+records the roots that reach it (`reached_from`): the directed search of checks/C01.py starts there.
 
 Not on the parse path, therefore not in the table (their properties own them): the serializers (C02), `matches_response`
 (C14), the DNS record getters and `compose_name` (C10), the crypto code (C09), the RadioTap writer (C11), the sniffer loop
